@@ -77,7 +77,7 @@ func (sim) Explain(prop string, st map[string]int64) string {
 	case "C20":
 		probes = []string{"probe.rejection-with-other-unmined", "probe.chained-unconfirmed-send", "probe.already-in-mempool", "probe.already-confirmed",
 			"probe.rejection-of-recorded-tx", "probe.resend-with-unmined", "probe.resend-chain", "fault.backend-answer.transport", "fault.backend-answer.reject-fee",
-			"fault.backend-answer.reject-generic", "fault.backend-answer.reject-conflict", "fault.backend-answer.notify-received-fails", "fault.backend-answer.notify-received-2nd-fails", "probe.resend-rejected", "probe.rejection-with-recorded-child", "probe.resend-child-of-two-outputs-of-one-parent"}
+			"fault.backend-answer.reject-generic", "fault.backend-answer.reject-conflict", "fault.backend-answer.notify-received-fails", "fault.backend-answer.notify-received-2nd-fails", "probe.resend-rejected", "probe.rejection-with-recorded-child", "probe.resend-child-of-two-outputs-of-one-parent", "probe.foreign-child-of-wallet-tx"}
 	case "C03", "C05", "C08":
 		probes = []string{"probe.account-import-preview", "probe.preview-while-locked", "probe.account-imported", "probe.import-after-preview", "probe.imported-address-checked",
 			"probe.restart-observations", "probe.next-address-compared", "probe.private-key-checked", "probe.private-access-while-locked"}
@@ -892,6 +892,8 @@ func (rs *runState) exec(task, step int, op core.Op) {
 				env.Eff()
 			}
 		}
+	case "fundchild":
+		rs.fundchild(step, op)
 	case "sendself":
 		if x.running {
 			rs.sendself(step, op)
